@@ -761,6 +761,19 @@ def rule_dup_test_on_result(repo, col):
                     if isinstance(n, ast.Assign) and isinstance(
                         n.targets[0], ast.Subscript)}
     result_names.discard(None)
+    grew = True
+    while grew:
+        grew = False
+        for nm, vals in ass.items():
+            if nm not in result_names and any(
+                    isinstance(v, ast.Name) and v.id in result_names
+                    for v, _ in vals if v is not None):
+                result_names.add(nm)
+                grew = True
+    if not result_names:
+        col.unknown(rule, TABLE, 'Table.update_ids', 'duplicates-on-result',
+                    fn, 'the new id array is not recognised')
+        return
     k = 0
     for n in body_walk(fn):
         if isinstance(n, ast.Raise) and 'uplicate' in unparse(n, 200):
